@@ -463,7 +463,8 @@ def oracle_server_reply(case):
         is_message = bool(reply) and isinstance(json.loads(reply.decode("utf-8")), (dict, list))
     except ValueError:
         pass
-    if (is_message or (code == "200")) and got.get("content-type") != [ctype]:
+    # the configured type is what a *message* is declared as; an answer without a body (to a notification) carries none
+    if is_message and got.get("content-type") != [ctype]:
         fail("C17/server-content-type", "%s reply (%s): Content-type %r, configured %r" % (kind, code, got.get("content-type"), ctype), case)
     if kind in ("call", "unknown-method", "malformed-json", "invalid-request", "batch", "failing-method") and (code != "200" or not is_message):
         fail("C17/server-reply-status", "%s request answered %s %r" % (kind, status, reply[:100]), case)
@@ -607,7 +608,7 @@ def oracle_cgi(case):
         hdrs[k.strip().lower()] = v.strip()
     if hdrs.get("content-length") != str(len(body)):
         fail("C17/cgi-content-length", "CGI Content-Length %r for a body of %d bytes" % (hdrs.get("content-length"), len(body)))
-    if hdrs.get("content-type") != case["content_type"]:
+    if body and hdrs.get("content-type") != case["content_type"]:
         fail("C17/cgi-content-type", "CGI Content-Type %r, configured %r" % (hdrs.get("content-type"), case["content_type"]))
     if case["kind"] == "call":
         out = json.loads(body.decode("utf-8"))
